@@ -547,6 +547,153 @@ func run(c *mc.Ctx) {
 		}
 	})
 
+	// signAndCheck: one deterministic request compared with crypto/ed25519 byte for byte, the result verified by the
+	// library (two presets, expanded key, one-entry batch) and by the std-lib.  Used by the collision and sweep sub-spaces.
+	type vr struct {
+		hash crypto.Hash
+		ctx  string
+		name string
+	}
+	stdKeys := make([]stded.PrivateKey, len(seeds))
+	for i, s := range seeds {
+		stdKeys[i] = stded.NewKeyFromSeed(s)
+	}
+	signAndCheck := func(w *mc.W, class string, ki int, v vr, m []byte, selfVerify bool) []byte {
+		priv := ed.PrivateKey(append(append([]byte{}, seeds[ki]...), rkeys[ki].Pub...))
+		pub := rkeys[ki].Pub
+		want, err := stdKeys[ki].Sign(nil, m, &stded.Options{Hash: v.hash, Context: v.ctx})
+		if err != nil {
+			c.Broken("std-lib refused a valid signing request: " + err.Error())
+			return nil
+		}
+		what := fmt.Sprintf("%s: seed=%x variant=%s ctxlen=%d msglen=%d SelfVerify=%v", class, seeds[ki], v.name, len(v.ctx), len(m), selfVerify)
+		cas := map[string]string{"seed": mc.Hex(seeds[ki]), "message": mc.Hex(m), "context": mc.Hex([]byte(v.ctx)), "hash": hashName(v.hash), "want": mc.Hex(want)}
+		w.Eval(class+"/sign", true)
+		sig, serr, pan := callSign(func() ([]byte, error) {
+			return priv.Sign(nil, m, &ed.Options{Hash: v.hash, Context: v.ctx, SelfVerify: selfVerify, Verify: presets[(len(m)+len(v.ctx))%4].vo})
+		})
+		if pan || serr != nil || !bytes.Equal(sig, want) {
+			w.Fail("PrivateKey.Sign/deterministic", fmt.Sprintf("%s: got sig=%x err=%v, RFC 8032 / crypto/ed25519 signature is %x", what, sig, serr, want), cas)
+		}
+		// the RFC signature must verify through every hashing path of the library
+		for _, p := range presets[:2] {
+			o := &ed.Options{Hash: v.hash, Context: v.ctx, Verify: p.vo}
+			w.EvalN(class+"/verify", 2, true)
+			ok1, _ := callB(func() bool { return ed.VerifyWithOptions(pub, m, want, o) })
+			ok2 := false
+			if epk, err := ed.NewExpandedPublicKey(pub); err == nil {
+				ok2, _ = callB(func() bool { return ed.VerifyExpandedWithOptions(epk, m, want, o) })
+			}
+			if !ok1 || !ok2 {
+				w.Fail("Verify/rejects-RFC-signature/"+p.name, fmt.Sprintf("%s: VerifyWithOptions=%v VerifyExpandedWithOptions=%v on the RFC signature %x", what, ok1, ok2, want), cas)
+			}
+		}
+		w.Eval(class+"/batch", true)
+		bv := ed.NewBatchVerifier()
+		o := &ed.Options{Hash: v.hash, Context: v.ctx}
+		bv.AddWithOptions(pub, m, want, o)
+		bv.AddWithOptions(pub, m, want, o)
+		if all, each := bv.Verify(&streamReader{buf: mc.Bytes(c.Seed, "c02-sweep-batch", len(m)*256+len(v.ctx), 64)}); !all || len(each) != 2 || !each[0] || !each[1] {
+			w.Fail("BatchVerifier.Verify/rejects-valid-signatures/Default", fmt.Sprintf("%s: batch of two copies: all=%v each=%v", what, all, each), cas)
+		}
+		return want
+	}
+	mustReject := func(w *mc.W, class, what string, ki int, v vr, m, sig []byte) {
+		pub := rkeys[ki].Pub
+		if stded.VerifyWithOptions(pub, m, sig, &stded.Options{Hash: v.hash, Context: v.ctx}) == nil {
+			c.Broken("std-lib accepts a signature made for another variant/key: " + what)
+			return
+		}
+		for _, p := range presets {
+			w.Eval(class+"/reject", true)
+			o := &ed.Options{Hash: v.hash, Context: v.ctx, Verify: p.vo}
+			if ok, _ := callB(func() bool { return ed.VerifyWithOptions(pub, m, sig, o) }); ok {
+				w.Fail("Verify/accepts-after-change", fmt.Sprintf("%s (preset %s): accepted; pub=%x sig=%x ctx=%x hash=%s msg=%x", what, p.name, pub, sig, v.ctx, hashName(v.hash), m),
+					map[string]string{"public_key": mc.Hex(pub), "signature": mc.Hex(sig), "message": mc.Hex(m), "context": mc.Hex([]byte(v.ctx)), "hash": hashName(v.hash), "change": what})
+			}
+		}
+	}
+
+	// ---- sub-space "collisions": force collisions on anything state could be keyed by ----
+	// Every index owns a context nobody else uses (so the order of first use is fixed and the case replays alone): the
+	// same context under ctx then ph (odd indices: ph then ctx), the same 64-byte message under pure/ctx/ph/ph+ctx, each
+	// signature offered under the next variant (must be rejected), the same message and context under a second key, a
+	// randomised and a self-verified request in between, and every variant once more at the end.
+	collLens := []int{4, 32, 95, 100, 158, 255}
+	c.Par("collisions", c.Pick(48, 240), func(w *mc.W, i int) {
+		ctx := string(mc.Bytes(c.Seed, "c02-collision-context", i, collLens[i%len(collLens)]))
+		m := mc.Bytes(c.Seed, "c02-collision-message", i, 64)
+		vs := []vr{{0, ctx, "ctx"}, {crypto.SHA512, ctx, "ph+ctx"}, {0, "", "pure"}, {crypto.SHA512, "", "ph"}}
+		if i%2 == 1 {
+			vs[0], vs[1] = vs[1], vs[0]
+			vs[2], vs[3] = vs[3], vs[2]
+		}
+		k0, k1 := i%len(seeds), (i+1)%len(seeds)
+		sigs := make([][]byte, len(vs))
+		for j, v := range vs {
+			sigs[j] = signAndCheck(w, "collision", k0, v, m, j%2 == 1)
+			if j > 0 && sigs[j-1] != nil {
+				mustReject(w, "collision", "signature of variant "+vs[j-1].name+" offered as "+v.name+" (same key, message, context)", k0, v, m, sigs[j-1])
+			}
+			if j == 0 {
+				// a randomised request with the same key / context / message in between
+				priv := ed.PrivateKey(append(append([]byte{}, seeds[k0]...), rkeys[k0].Pub...))
+				w.Eval("collision/randomised-in-between", true)
+				rs, err, pan := callSign(func() ([]byte, error) {
+					return priv.Sign(constReader(byte(i)), m, &ed.Options{Hash: v.hash, Context: v.ctx, AddedRandomness: true})
+				})
+				if pan || err != nil || len(rs) != 64 || stded.VerifyWithOptions(rkeys[k0].Pub, m, rs, &stded.Options{Hash: v.hash, Context: v.ctx}) != nil {
+					w.Fail("PrivateKey.Sign/randomised", fmt.Sprintf("collision index %d: randomised signature %x err=%v is not valid for crypto/ed25519", i, rs, err), nil)
+				}
+			}
+		}
+		other := signAndCheck(w, "collision", k1, vs[0], m, false)
+		if other != nil && sigs[0] != nil {
+			mustReject(w, "collision", "signature of another key on the same message and context", k0, vs[0], m, other)
+			mustReject(w, "collision", "signature of another key on the same message and context", k1, vs[0], m, sigs[0])
+		}
+		for _, v := range vs {
+			signAndCheck(w, "collision-revisit", k0, v, m, false)
+		}
+	})
+
+	// ---- sub-space "length-sweep": EVERY message length 0..300 x context lengths {0,1,32,95,100,158,254,255}; every context
+	// length 0..255 for ph (64-byte digest) and for ctx with message lengths 0 and 64 — sign == crypto/ed25519 and the RFC
+	// signature verifies (plain, expanded, batch).  Contexts and messages are prefixes of two fixed strings, so ctx and
+	// ph share every context and all contexts share every message.
+	type sweepCase struct {
+		v  vr
+		n  int
+		ki int
+	}
+	var sweep []sweepCase
+	{
+		ctxBase := string(mc.Bytes(c.Seed, "c02-sweep-context", 0, 255))
+		for _, ki := range []int{3 % len(seeds), 1} {
+			for _, cl := range []int{0, 1, 32, 95, 100, 158, 254, 255} {
+				for n := 0; n <= 300; n++ {
+					sweep = append(sweep, sweepCase{vr{0, ctxBase[:cl], "pure/ctx"}, n, ki})
+				}
+			}
+			for cl := 0; cl <= 255; cl++ {
+				sweep = append(sweep, sweepCase{vr{crypto.SHA512, ctxBase[:cl], "ph"}, 64, ki})
+				if cl > 0 {
+					sweep = append(sweep, sweepCase{vr{0, ctxBase[:cl], "ctx"}, 0, ki}, sweepCase{vr{0, ctxBase[:cl], "ctx"}, 64, ki})
+				}
+			}
+		}
+	}
+	c.Rep.Extra["length_sweep_cases"] = len(sweep)
+	sweepMsg := mc.Bytes(c.Seed, "c02-sweep-message", 0, 300)
+	c.Par("length-sweep", len(sweep), func(w *mc.W, i int) {
+		sc := sweep[i]
+		m := sweepMsg[:sc.n]
+		if sc.v.hash == crypto.SHA512 {
+			m = refed.Prehash(sweepMsg[:sc.n+i%7])
+		}
+		signAndCheck(w, "length-sweep", sc.ki, sc.v, m, i%3 == 0)
+	})
+
 	// ---- sub-space "mutations": a produced signature stops verifying after ANY change ----
 	type mcase struct {
 		seed      []byte
@@ -731,6 +878,9 @@ func run(c *mc.Ctx) {
 	c.Require("randomised/failing-reader", 50)
 	c.Require("invalid-options/error", 50)
 	c.Require("selfverify/corrupted-public-half", 50)
+	c.Require("collision/sign", 100)
+	c.Require("collision/reject", 100)
+	c.Require("length-sweep/sign", 3000)
 	c.Require("randomised/zero", 50)
 	c.Require("randomised/streamB", 50)
 	c.Require("randomised/streamA-one-byte-reads", 50)
